@@ -2440,10 +2440,10 @@ class Transport(threading.Thread, ClosingContextManager):
         self.clear_to_send_lock.acquire()
         try:
             self.clear_to_send.clear()
+            self.in_kex = True
         finally:
             self.clear_to_send_lock.release()
         self.gss_kex_used = False
-        self.in_kex = True
         kex_algos = list(self.preferred_kex)
         if self.server_mode:
             mp_required_prefix = "diffie-hellman-group-exchange-sha"
@@ -2951,17 +2951,20 @@ class Transport(threading.Thread, ClosingContextManager):
             # (also signal to packetizer as it sometimes wants to know this
             # status as well, eg when seqnos rollover)
             self.initial_kex_done = self.packetizer._initial_kex_done = True
-        # send an event?
-        if self.completion_event is not None:
-            self.completion_event.set()
-        # it's now okay to send data again (if this was a re-key)
-        if not self.packetizer.need_rekey():
-            self.in_kex = False
+        # it's now okay to send data again (if this was a re-key).  Leave the
+        # exchange in one step under the lock _send_kex_init uses to enter
+        # one, and only then wake whoever waits for the exchange to finish:
+        # renegotiate_keys() may start the next one as soon as it returns.
         self.clear_to_send_lock.acquire()
         try:
+            if not self.packetizer.need_rekey():
+                self.in_kex = False
             self.clear_to_send.set()
         finally:
             self.clear_to_send_lock.release()
+        # send an event?
+        if self.completion_event is not None:
+            self.completion_event.set()
         return
 
     def _parse_disconnect(self, m):
